@@ -11,11 +11,11 @@ import (
 	"verif/harness/ora"
 )
 
-// The cross corpus: an evenly spaced subset of the documents that the structure-specific checks
-// (C03, C04, C06-C08, C14-C20) enumerate in their quick tier. The checks whose oracle is defined
-// for any document (C01 totality, C02 excerpt order, C05 inert output, C06 URL resolution, C09
-// view agreement, C10 caller-owned arguments, C11 warm-vs-fresh, C13 option invariance) run it as
-// an additional sub-space, so that each of them also meets the input shapes the other checks
+// The cross corpus: an evenly spaced subset of the documents that the other checks enumerate in
+// their quick tier. The checks whose oracle is defined for any document (C01 totality, C02 excerpt
+// order, C03 whole paragraphs, C05 inert output, C06 URL resolution, C09 view agreement, C10
+// caller-owned arguments, C11 warm-vs-fresh, C13 option invariance, C15 title clauses, C16
+// pagination targets, C19 frames) run it as an additional sub-space, so that each of them also meets the input shapes the other checks
 // were built around (pagers, frames, tables of every class, metadata blocks, hidden carriers,
 // titles, marked subtrees) and not only the atoms of its own grammar.
 //
@@ -23,7 +23,7 @@ import (
 // power of two that leaves at most 2*target cases. The corpus is built once per harness build
 // (by the parent process) and stored next to the binary.
 
-var crossSources = []string{"C03", "C04", "C06", "C07", "C08", "C14", "C15", "C16", "C17", "C18", "C19", "C20"}
+var crossSources = []string{"C02", "C03", "C04", "C06", "C07", "C08", "C09", "C10", "C13", "C14", "C15", "C16", "C17", "C18", "C19", "C20"}
 
 type CrossDoc struct {
 	PID  string `json:"pid"`
@@ -154,13 +154,14 @@ func CrossCorpus(tier string) []CrossDoc {
 	return v
 }
 
-// crossEmit emits one case per cross document (every `every`-th one), of the given kind.
-func crossEmit(tier, kind string, every int, emit func(*eng.Case)) {
+// crossEmit emits one case per cross document (every `every`-th one) that does not come from the
+// property `self` itself, of the given kind.
+func crossEmit(self, tier, kind string, every int, emit func(*eng.Case)) {
 	if crossBuilding {
 		return
 	}
 	for i, d := range CrossCorpus(tier) {
-		if every > 1 && i%every != 0 {
+		if d.PID == self || (every > 1 && i%every != 0) {
 			continue
 		}
 		emit(&eng.Case{Kind: kind, HTML: d.HTML, URL: d.URL, Algo: d.Algo, P: map[string]string{"doc": "cross " + d.PID + ": " + d.Desc, "src": d.PID}})
@@ -171,4 +172,4 @@ func crossBounds(tier string) map[string]any {
 	return map[string]any{"sources": crossSources, "max_docs_per_source": 2 * crossTarget(tier)}
 }
 
-const crossRule = " Cross corpus: additionally an evenly spaced subset (every 2^k-th case of the quick enumeration, 200-400 documents per source in quick, 1500-3000 in thorough) of the documents of C03, C04, C06, C07, C08, C14, C15, C16, C17, C18, C19 and C20, judged by the same oracle."
+const crossRule = " Cross corpus: additionally an evenly spaced subset (every 2^k-th case of the quick enumeration, 200-400 documents per source in quick, 1500-3000 in thorough) of the documents of the other checks (C02-C04, C06-C10, C13-C20), judged by the same oracle."
